@@ -277,6 +277,10 @@ def gen_strings(ctx, cases):
             rng.shuffle(ls)
             strs = [b''] + [rs(n, uni=(t % 3 == 2)) for n in ls]
             cases.append(('strtab', [cfg, BASE + rng.randint(0, 63), strs, True, rng.choice([0, 1, 70]), rng.getrandbits(8)]))
+        if cfg is cfgs[0] or ctx.tier != 'quick':
+            # a table longer than 4096 bytes: offsets far from the table start
+            strs = [b''] + [rs(rng.choice([5, 17, 64, 100, 250]), False) for _ in range(60)]
+            cases.append(('strtab', [cfg, BASE + rng.randint(0, 63), strs, True, 3, rng.getrandbits(8)]))
         # malformed: last string runs into the end of the file / into the following bytes
         cases.append(('strtab', [cfg, BASE + 3, [b'', b'abc', rs(70, False)], False, 0, 1]))
         cases.append(('strtab', [cfg, BASE + 3, [b'', b'abc', rs(70, False)], False, 9, 1]))
